@@ -12,7 +12,7 @@ package exported
 
 // verif:iface ClientState.ClientType()
 //@ pure
-//@ ensures [fn] result == clientTypeOf(recv)
+//@ names [fn] result == clientTypeOf(recv)
 
 // verif:iface ClientState.VerifyPacketCommitment(ctx, store, cdc, height, proof, srcChain, dstChain, sequence, commitmentBytes)
 //@ ensures [verified] result == nil ==> verifiedCommitment(recv, store, height, proof, srcChain, dstChain, sequence, commitmentBytes)
@@ -26,10 +26,10 @@ package exported
 // verif:spec consTypeOf(cs ConsensusState) string
 
 // verif:iface ClientState.GetLatestHeight()
-//@ ensures [fn] result == latestHeightOf(recv)
+//@ names [fn] result == latestHeightOf(recv)
 
 // verif:iface ConsensusState.ClientType()
-//@ ensures [fn] result == consTypeOf(recv)
+//@ names [fn] result == consTypeOf(recv)
 
 // verif:iface ClientState.Initialize(ctx, cdc, store, consState)
 //@ modifies store
@@ -37,14 +37,18 @@ package exported
 // verif:iface ClientState.UpgradeState(ctx, cdc, store, consState)
 //@ modifies store
 
+// verif:spec statusOf(cs ClientState, store sdk.KVStore, now time.Time) Status
+// verif:import time time
 // verif:iface ClientState.Status(ctx, store, cdc)
-//@ ensures [read-only] true
+//@ names [fn] result == statusOf(recv, store, blocktime(ctx))
 
 // verif:iface ClientState.CheckHeaderAndUpdateState(ctx, cdc, store, header)
 //@ modifies store
+//@ ensures [client-non-nil] result2 == nil ==> result != nil
 
 // verif:iface ClientState.CheckMsg(msg)
 //@ ensures [read-only] true
 
 // verif:iface Header.GetHeight()
-//@ ensures [fn] result == headerHeight(recv)
+//@ names [fn]      result == headerHeight(recv)
+//@ ensures [non-nil] result != nil
